@@ -166,13 +166,17 @@ fn compile_and_extract_entry(
 
     let mut program = Program::new();
     let mut module_cache = ModuleCache::new();
+    // The top level is applied to nil. The parameter is a *type* id, so register the nil type:
+    // `types::NIL` is the nil *tuple* id, and as a type id it denotes whatever is registered
+    // first (the never type), which made a top-level `~` assignable to anything.
+    let parameter_type_id = program.register_type(Type::nil());
     let compilation_result = Compiler::compile(
         ast,
         &HashMap::new(),
         &mut module_cache,
         resolver,
         &mut program,
-        quiver_core::types::NIL, // parameter_type_id - use pre-registered nil type
+        parameter_type_id,
         &HashMap::new(),
         builtins,
         None, // no semantic recorder for the CLI
@@ -254,13 +258,14 @@ fn compile_command(
             };
             let mut program = Program::new();
             let mut module_cache = ModuleCache::new();
+            let parameter_type_id = program.register_type(Type::nil());
             Compiler::compile(
                 ast,
                 &HashMap::new(),
                 &mut module_cache,
                 &resolver,
                 &mut program,
-                quiver_core::types::NIL, // parameter_type_id
+                parameter_type_id,
                 &HashMap::new(),
                 &builtins,
                 None, // no semantic recorder for the CLI
